@@ -298,6 +298,8 @@ mod zalsa_local;
 pub mod verif_proto;
 #[cfg(salsa_rs_salsa_verif)]
 pub use verif_proto::verif_take_proto_trace;
+#[cfg(salsa_rs_salsa_verif)]
+pub use verif_proto::{verif_fetch_trace, verif_note};
 
 #[cfg(not(feature = "inventory"))]
 mod nonce;
